@@ -325,8 +325,17 @@ def child_e2e(arg):
 
         from vf.targets import e2e_target
         end = time.monotonic() + 20
+        # which reading belongs to the (single, fire_count=1) snapshot: the one taken for the event during which the
+        # agent handed a snapshot to its push service (delivery is asynchronous and can take longer than one run)
+        fired = []
+        real_push = agent.push.push_snapshot
+
+        def noting_push(snapshot):
+            fired.append(len(pending) - 1)
+            return real_push(snapshot)
+
+        agent.push.push_snapshot = noting_push
         while not srv.snapshots and time.monotonic() < end:
-            del pending[:]
             sys.settrace(observer)
             try:
                 e2e_target.run(1)
@@ -338,7 +347,9 @@ def child_e2e(arg):
         msg = srv.snapshots[0][0]
         stats['snaps'] = 1
         # the tracepoint fires once (fire_count=1): on the first time the line was reached in the run that produced it
-        exp = pending[0]
+        if len(fired) != 1 or not 0 <= fired[0] < len(pending):
+            return {'inconclusive': 'could not tell which reading belongs to the received snapshot (%r)' % (fired,)}
+        exp = pending[fired[0]]
         exp.compare(msg, arg, probs, stats)
     finally:
         try:
